@@ -624,6 +624,9 @@ fn exec_inner(t: &[&str]) -> Option<Out> {
             nontrivial: c.as_ref() != Some(&k),
         });
     }
+    if t[0] == "xv" {
+        return exec_external_vector(t);
+    }
     if !["tbs", "spec", "class", "sv"].contains(&t[0]) {
         return None;
     }
@@ -773,6 +776,96 @@ fn exec_inner(t: &[&str]) -> Option<Out> {
             Some(Out { line, out: "~".into(), fails, stats, nontrivial })
         }
     }
+}
+
+/// `xv EXPECT KEY SIGNATURE SIGNEDDATA <case args>` — an external vector (tools/gen_rsa_vectors.py: keys and
+/// signatures by openssl, signed data by the Lean specification).  Implementation only.
+/// EXPECT = OK: `DNSKEY::verify_rrsig` must accept it, and must reject it with one bit of the signature
+/// or of the RRset flipped; the signed data must equal both `TBS::from_input` and the Rust reference.
+/// EXPECT = ANY: recorded, nothing demanded about the genuine vector (non-canonical key encodings).
+fn exec_external_vector(t: &[&str]) -> Option<Out> {
+    let [_, expect, key, sig, tbs, args @ ..] = t else { return None };
+    let kf: Vec<&str> = key.split(';').collect();
+    let [_owner, flags, alg, pk] = kf.as_slice() else { return None };
+    let (flags, alg): (u16, u8) = (flags.parse().ok()?, alg.parse().ok()?);
+    let pk = unhex(pk)?;
+    let sig = unhex(sig)?;
+    let tbs = unhex(tbs)?;
+    let c = Case::parse(args)?;
+    let name = c.name.to_name()?;
+    let input = c.input()?;
+    let class = DNSClass::from(c.cls);
+    let records: Vec<Record> = c.recs.iter().map(|r| r.to_record()).collect::<Option<Vec<_>>>()?;
+    let dnskey = DNSKEY::with_flags(flags, hickory_proto::dnssec::PublicKeyBuf::new(pk.clone(), Algorithm::from_u8(alg)));
+    let line = format!("xv {expect} {key} {} {} {}", hex(&sig), hex(&tbs), c.args()?);
+    let mut fails: Vec<(String, String)> = vec![];
+    let mut stats = vec![];
+    let bits = match alg {
+        5 | 7 | 8 | 10 => {
+            // RFC 3110: exponent length, exponent, modulus
+            let (l, off) = if pk.first() == Some(&0) && pk.len() >= 3 { (((pk[1] as usize) << 8) | pk[2] as usize, 3) } else { (*pk.first()? as usize, 1) };
+            format!("rsa-{}", (pk.len().saturating_sub(off + l)) * 8)
+        }
+        13 => "p256".into(),
+        14 => "p384".into(),
+        _ => "ed25519".into(),
+    };
+    // the three computations of the signed data agree
+    let real = TBS::from_input(&name, class, &input, records.iter()).map(|x| x.as_ref().to_vec());
+    if real.as_ref().ok() != Some(&tbs) {
+        fails.push(("TBS::from_input differs from the signed data of the external vector (Lean Spec.signedData)".into(), String::new()));
+    }
+    if c.ref_signed_data().as_ref() != Some(&tbs) {
+        fails.push(("the Rust reference encoder differs from the signed data of the external vector (Lean Spec.signedData)".into(), String::new()));
+    }
+    let verify = |sig: &[u8], recs: &[Record]| dnskey.verify_rrsig(&name, class, &RRSIG::from_sig(input.clone(), sig.to_vec()), recs.iter()).is_ok();
+    let genuine = verify(&sig, &records);
+    stats.push(format!("xv.{}.alg{alg}.{}", bits, if genuine { "verified" } else { "rejected" }));
+    if *expect == "OK" && !genuine {
+        fails.push((format!("a genuine third-party (openssl) signature does not verify: algorithm {alg}, key {bits}"), String::new()));
+    }
+    // one flipped bit in the signature / in the RRset: never accepted (positions derived from the vector)
+    let seed = sig.iter().fold(0u64, |a, b| a.wrapping_mul(131).wrapping_add(*b as u64));
+    for j in 0..6u64 {
+        let mut s2 = sig.clone();
+        if s2.is_empty() {
+            break;
+        }
+        let pos = ((seed >> (j * 7)) as usize + j as usize * 37) % (s2.len() * 8);
+        s2[pos / 8] ^= 1 << (pos % 8);
+        if verify(&s2, &records) {
+            fails.push((format!("signature with bit {pos} flipped still verifies (algorithm {alg}, key {bits})"), String::new()));
+        }
+    }
+    if let Some(first) = c.recs.first() {
+        let mut c2 = c.clone();
+        match &mut c2.recs[0].rd {
+            RD::A(o) => o[3] ^= 1,
+            RD::Ns(n) => {
+                if let Some(l) = n.labels.first_mut() {
+                    l[0] ^= 1;
+                }
+            }
+            RD::Txt(ss) => {
+                if let Some(x) = ss.first_mut().and_then(|x| x.first_mut()) {
+                    *x ^= 1;
+                }
+            }
+            _ => c2.ottl ^= 1,
+        }
+        let _ = first;
+        if let Some(recs2) = c2.recs.iter().map(|r| r.to_record()).collect::<Option<Vec<_>>>() {
+            if verify(&sig, &recs2) {
+                fails.push((format!("RRset with one bit of a record flipped still verifies (algorithm {alg}, key {bits})"), String::new()));
+            }
+        }
+        let mut inp2 = input.clone();
+        inp2.original_ttl ^= 1;
+        if dnskey.verify_rrsig(&name, class, &RRSIG::from_sig(inp2, sig.clone()), records.iter()).is_ok() {
+            fails.push((format!("RRSIG with one bit of the original TTL flipped still verifies (algorithm {alg}, key {bits})"), String::new()));
+        }
+    }
+    Some(Out { line, out: "~".into(), fails, stats, nontrivial: genuine })
 }
 
 // ------------------------------------------------------------------ generator
